@@ -346,7 +346,11 @@ class Gen:
                     # re-insert tokens of the replaced range itself (allowed: they are inside [start, end))
                     toks = toks + [ref[x].vid for x in range(i, j + 1)][:3]
                 before = {t.vid for t in ref}
-                yield {'op': 'splice', 'sid': 1, 'ref': ref[i].vid, 'end': (ref[j].vid if rng.random() < 0.85 else None), 'toks': toks}
+                if rng.random() < 0.12:
+                    # the other call shape: no start token = from the very beginning, up to and including `end`
+                    yield {'op': 'splice', 'sid': 1, 'ref': None, 'end': (ref[j].vid if rng.random() < 0.8 else None), 'toks': [t for t in toks if isinstance(t, list)]}
+                else:
+                    yield {'op': 'splice', 'sid': 1, 'ref': ref[i].vid, 'end': (ref[j].vid if rng.random() < 0.85 else None), 'toks': toks}
                 pool.extend(sorted(before - {t.vid for t in world.refs[1]}))
             elif r < 0.70:
                 i = rng.randrange(n)
